@@ -1,24 +1,39 @@
 """Configuration of ./check C02 (see lib/registry.py for the fields)."""
 CFG = dict(
-    claim="PARTIAL. Model: coq/Model/Sys.v (client model x server model x two FIFO wires), arbitrary caller and handler programs, any "
-          "number of streams, any interleaving. Proved in coq/Props/C02.v: the transport-level half, per stream id and position by "
-          "position: C02_wire_c2s_prefix_partial / C02_wire_s2c_prefix_partial (what a side has read for a stream is a prefix of what the "
-          "other side wrote for it: no loss, duplication, reordering, alteration, fabrication) and C02_wire_complete_partial (equal once "
-          "wires and read queues are empty); and two API-level clauses end to end: C02_handler_eof_sound_partial (the handler observes "
-          "io.EOF only if its caller half-closed that stream) and C02_handler_recv_was_sent_partial (every message a handler received is "
-          "the body of an envelope its caller wrote on that stream) and C02_caller_eof_sound_partial (the caller observes io.EOF only if "
-          "the handler of that stream returned nil: the envelope it took is the trailer SendTrailer built from that return). and "
-          "C02_handler_order_partial (the RecvMsg results of a stream handler, in order, classify a subsequence of the envelopes its "
-          "caller wrote on that stream in the order of writing: no reordering, duplication, fabrication, alteration towards the "
-          "handler) and C02_caller_order_partial (the messages RecvMsg returned on a call, in order, are a subsequence of the bodies of "
-          "the envelopes the server wrote with the call's id, in the order of writing). NOT proved: no loss in fault-free runs (prefix "
-          "instead of subsequence), EOF only after everything was received (both sides), caller EOF complete (never Canceled on success): they need per-id FIFO facts of the two component models that do not exist yet. The tie: the boolean predicates spec_c02 of coq/Check/C02c.v (position-wise delivery in both directions, "
-          "handler EOF only after half-close with nothing outstanding, caller EOF only after the handler returned nil with nothing "
-          "outstanding, no non-EOF failure of a successful stream - the Canceled-instead-of-EOF outcome -, nothing hangs) are evaluated "
-          "on every history recorded from the REAL client connection + server.",
+    claim="FULL (fault-free clauses) + the clauses that survive faults. Model: coq/Model/Sys.v (client model x server model x two FIFO wires), "
+          "arbitrary caller and handler programs, any number of streams and unary calls, any interleaving. coq/Props/C02.v. FAULT-FREE runs "
+          "(no read failure, no write failure or blocked write, no Stop, no cancellation of Serve's context), no reset written by the client: "
+          "C02_prefix_c2h (the RecvMsg results of a stream handler are the classifications of a PREFIX of the envelopes its caller wrote on "
+          "the stream after the opening one - SendMsg's bodies, CloseSend's trailer - in order: nothing lost, duplicated, reordered, altered, "
+          "fabricated); C02_prefix_h2c (the messages the caller's RecvMsg returned are a PREFIX of the messages in the envelopes the server's "
+          "writer accepted under the stream's id = the handler's SendMsg calls that returned nil); C02_handler_eof_after_all (handler io.EOF "
+          "=> the caller half-closed and every envelope written before the half-close was received, in order, before it), "
+          "C02_handler_eof_complete / C02_handler_eof_delivered (Q-form: a handler waiting in RecvMsg in a quiescent state with empty wires and "
+          "inboxes has been given every envelope the caller wrote, io.EOF included if the caller half-closed); C02_caller_eof_after_all (a "
+          "caller told io.EOF has been given ALL the messages its handler sent); C02_caller_eof_complete (Q-form; caller's context not ended, "
+          "no SendMsg of the stream failed, the handler returned nil and the writer accepted its trailer: in every quiescent state with empty "
+          "wires and inboxes either a message waits for a RecvMsg the caller has not issued, or the terminal state (done, io.EOF) is "
+          "published, no RecvMsg is pending, RecvMsg has returned all the handler's messages and never returned another error than io.EOF - "
+          "or Unmarshal for an undecodable message: never Canceled); C02_link_send / C02_link_send_arg / C02_link_hsend / C02_link_haccept / "
+          "C02_link_msg_frame (step lemmas: SendMsg(b) writes body_env id b and returns nil in one step; a handler's SendMsg(b) offers "
+          "msg_frame k b and returns nil exactly when the writer takes that frame). ALL runs (arbitrary faults, cancellation, resets): "
+          "C02_wire_c2s_prefix / C02_wire_s2c_prefix / C02_wire_complete (per stream id what a side has read is a prefix of what the other "
+          "side wrote, equal once wires and inboxes are empty); C02_caller_prefix (the messages RecvMsg returned are a PREFIX of the messages "
+          "in the envelopes the server WROTE under the stream's id: cancellation only truncates); C02_handler_order / C02_caller_order "
+          "(subsequence: a gap is an envelope dropped because its receiver had gone or was reset); C02_handler_eof_sound, "
+          "C02_handler_recv_was_sent, C02_caller_eof_sound (io.EOF at the handler only if the caller half-closed; every message received was "
+          "sent; io.EOF at the caller only if the handler returned nil). Hypotheses stated on states, not labels: 'no reset written' is "
+          "forall e, In (EvWrite e) log -> erst e = false (global, all streams); 'caller's context not ended' is ctx_done (k_ctx k) = false; "
+          "head-of-line blocking is why the Q-forms ask for empty inboxes. The tie: the boolean predicates spec_c02 of coq/Check/C02c.v "
+          "(position-wise delivery in both directions, handler EOF only after half-close with nothing outstanding, caller EOF only after the "
+          "handler returned nil with nothing outstanding, no non-EOF failure of a successful stream - the Canceled-instead-of-EOF outcome -, "
+          "nothing hangs) are evaluated on every history recorded from the REAL client connection + server.",
     props="Props/C02.v",
-    theorems=["C02_wire_c2s_prefix_partial", "C02_wire_s2c_prefix_partial", "C02_wire_complete_partial",
-              "C02_handler_eof_sound_partial", "C02_handler_recv_was_sent_partial", "C02_caller_eof_sound_partial", "C02_handler_order_partial", "C02_caller_order_partial"],
+    theorems=["C02_prefix_c2h", "C02_prefix_h2c", "C02_handler_eof_after_all", "C02_handler_eof_complete", "C02_handler_eof_delivered",
+              "C02_caller_eof_after_all", "C02_caller_eof_complete",
+              "C02_link_send", "C02_link_send_arg", "C02_link_hsend", "C02_link_haccept", "C02_link_msg_frame",
+              "C02_wire_c2s_prefix", "C02_wire_s2c_prefix", "C02_wire_complete", "C02_caller_prefix",
+              "C02_handler_eof_sound", "C02_handler_recv_was_sent", "C02_caller_eof_sound", "C02_handler_order", "C02_caller_order"],
     imports=["Check.SysC", "Check.C02c"],
     case_type="c02case",
     find_bad_from="find_bad_from",
